@@ -734,7 +734,7 @@ func TestC18(t *testing.T) {
 	if lib.Thorough() {
 		depth, extra = 6, 1
 	}
-	rep.Rule = fmt.Sprintf("BFS over histories (depth <=%d; states first reached at that depth whose history released an inode - unlinked and forgotten, so inode numbers and staging files get recycled - are explored %d more level(s)) of CreateFile / MkDir / WriteFile(off 0|3, 'x'|'yz') / SetInodeAttributes(size 0|1|5) / Rename(all directory x name pairs) / Unlink / RmDir / LookUpInode / ForgetInode(n <= lookup count), names {a,b}, any live directory as parent, on the real fsMutable (fresh instance + replay per state, scratch staging dir), de-duplicated on (POSIX tree model with lookup counts, implementation dump of lookup tree / readdir map / node store / inode allocator, staging files with content); every transition compared with the model (result, errno; ENOSYS = declined if the state is unchanged); in every state: getattr (type, size, link count), ReadDir with the resume protocol at 3 buffer sizes, ReadFile, inode uniqueness, and a Commit whose bundle must equal the visible tree; a fatal error of the process is a violation; distinct = distinct states", depth, extra)
+	rep.Rule = fmt.Sprintf("BFS over histories (depth <=%d; states first reached at that depth whose history released an inode - unlinked and forgotten, so inode numbers and staging files get recycled - are explored %d more level(s)) of CreateFile / MkDir / WriteFile(off 0|3, 'x'|'yz') / SetInodeAttributes(size 0|1|5) / Rename(all directory x name pairs) / Unlink / RmDir / LookUpInode / ForgetInode(n <= lookup count), names {a,b}, any live directory as parent, on the real fsMutable (fresh instance + replay per state, scratch staging dir), de-duplicated on (POSIX tree model with lookup counts, implementation dump of lookup tree / readdir map / node store / inode allocator, staging files with content); every transition compared with the model (result, errno; ENOSYS = declined if the state is unchanged); in every state: getattr (type, size, link count), ReadDir with the resume protocol at 3 buffer sizes, ReadFile, inode uniqueness, and a Commit whose bundle must equal the visible tree; a fatal error of the process is a violation; plus the inode allocator on its own (verif hook): BFS over alloc / free histories with <=4 live inodes to depth 12 (thorough 16), an allocation never returns a live number; distinct = distinct states", depth, extra)
 	skip := []string{}
 	parallel := true
 	for attempt := 0; attempt < 24; attempt++ {
@@ -801,6 +801,88 @@ func TestC18(t *testing.T) {
 		rep.Note("op class skipped after killing the process: " + j.Class)
 	}
 	rep.Set("op_classes_skipped_after_fatal", skip)
+	c18alloc(rep)
+}
+
+// c18alloc explores the inode allocator on its own (verif hook): BFS over alloc / free(i) histories with at most 4 live
+// inodes, to depth 12 (thorough 16), de-duplicated on (live set, allocator dump). Invariant: an allocation never returns
+// a number that is live, and never the root's.
+func c18alloc(rep *lib.Report) {
+	type aop struct {
+		Free uint64 // 0 = alloc
+	}
+	depth := 12
+	if lib.Thorough() {
+		depth = 16
+	}
+	build := func(h []aop) (*dfuse.VerifINodes, map[uint64]bool, string) {
+		g := dfuse.NewVerifINodes()
+		live := map[uint64]bool{}
+		for i, o := range h {
+			if o.Free != 0 {
+				g.Free(o.Free)
+				delete(live, o.Free)
+				continue
+			}
+			n := g.Alloc()
+			if live[n] || n <= 1 {
+				return g, live, fmt.Sprintf("step %d: alloc returned %d while inodes %v are live", i, n, keysOfU64(live))
+			}
+			live[n] = true
+		}
+		return g, live, ""
+	}
+	hist := func(h []aop) string {
+		var p []string
+		for _, o := range h {
+			if o.Free == 0 {
+				p = append(p, "alloc")
+			} else {
+				p = append(p, fmt.Sprintf("free(%d)", o.Free))
+			}
+		}
+		return strings.Join(p, " ")
+	}
+	res := lib.BFS(lib.BFSConfig[aop]{
+		Alphabet: func(h []aop) []aop {
+			_, live, msg := build(h)
+			if msg != "" {
+				return nil
+			}
+			var ops []aop
+			if len(live) < 4 {
+				ops = append(ops, aop{})
+			}
+			for _, i := range keysOfU64(live) {
+				ops = append(ops, aop{Free: i})
+			}
+			return ops
+		},
+		Canon: func(h []aop) string {
+			g, live, msg := build(h)
+			rep.Eval(1)
+			if msg != "" {
+				rep.Violate("C18|allocator|live-inode-handed-out", fmt.Sprintf("history [%s]: %s (allocator %s)", hist(h), msg, g.Dump()), hist(h))
+				return ""
+			}
+			return fmt.Sprint(keysOfU64(live)) + " || " + g.Dump()
+		},
+		MaxDepth:  depth,
+		MaxStates: 2_000_000,
+	})
+	rep.AddStates(int64(res.States), int64(res.Transitions), int64(res.Transitions))
+	rep.Set("allocator_states", res.States)
+	rep.Set("allocator_transitions", res.Transitions)
+	rep.Set("allocator_depth", res.Depth)
+}
+
+func keysOfU64(m map[uint64]bool) []uint64 {
+	var o []uint64
+	for k := range m {
+		o = append(o, k)
+	}
+	sort.Slice(o, func(i, j int) bool { return o[i] < o[j] })
+	return o
 }
 
 func min2(a, b int) int {
